@@ -57,6 +57,11 @@ struct RunResult {
 
 /// one execution under the scheduler, following `prefix` and then always the lowest runnable thread
 fn run_once(p: &Program, prefix: &[usize]) -> RunResult {
+    run_once_with(p, prefix, false)
+}
+
+/// `sticky`: past the prefix keep running the thread that ran last while it is runnable (no preemption)
+fn run_once_with(p: &Program, prefix: &[usize], sticky: bool) -> RunResult {
     let mut base = build(p);
     let n = p.threads.len();
     let sched = Arc::new((Mutex::new(Sched { status: vec![St::Running; n], turn: None }), Condvar::new()));
@@ -129,7 +134,13 @@ fn run_once(p: &Program, prefix: &[usize]) -> RunResult {
             break;
         }
         let step = choices.len();
-        let t = if step < prefix.len() && runnable.contains(&prefix[step]) { prefix[step] } else { runnable[0] };
+        let t = if step < prefix.len() && runnable.contains(&prefix[step]) {
+            prefix[step]
+        } else if sticky && !choices.is_empty() && runnable.contains(&choices[step - 1]) {
+            choices[step - 1]
+        } else {
+            runnable[0]
+        };
         if let St::AtYield(l) = &g.status[t] {
             labels.push(format!("{}:{}", t, l));
         }
@@ -250,6 +261,50 @@ fn run_program(p: &Program) {
         let prefix: Vec<usize> = p.arg.split(',').filter(|s| !s.is_empty()).map(|s| s.parse().unwrap()).collect();
         let r = run_once(p, &prefix);
         print_run(p, &r);
+        return;
+    }
+    if p.mode == "pbound" {
+        // every schedule with at most K preemptions (a switch away from a thread that could have continued)
+        let mut it = p.arg.split(',');
+        let k: usize = it.next().and_then(|x| x.parse().ok()).unwrap_or(2);
+        let maxruns: usize = it.next().and_then(|x| x.parse().ok()).unwrap_or(20000);
+        let mut stack: Vec<Vec<usize>> = vec![vec![]];
+        let mut runs = 0;
+        let mut exhausted = true;
+        while let Some(prefix) = stack.pop() {
+            if runs >= maxruns {
+                exhausted = false;
+                break;
+            }
+            let r = run_once_with(p, &prefix, true);
+            runs += 1;
+            print_run(p, &r);
+            if r.deadlock {
+                break;
+            }
+            let preempts = |ch: &[usize], upto: usize| -> usize {
+                (1..upto).filter(|&j| ch[j] != ch[j - 1] && r.runnable[j].contains(&ch[j - 1])).count()
+            };
+            for i in prefix.len()..r.choices.len() {
+                let before = preempts(&r.choices, i);
+                for &alt in &r.runnable[i] {
+                    if alt != r.choices[i] {
+                        let extra = if i > 0 && alt != r.choices[i - 1] && r.runnable[i].contains(&r.choices[i - 1]) { 1 } else { 0 };
+                        if before + extra <= k {
+                            let mut np = r.choices[..i].to_vec();
+                            np.push(alt);
+                            stack.push(np);
+                        }
+                    }
+                }
+            }
+        }
+        let mut seqs = BTreeSet::new();
+        sequential(p, &mut seqs);
+        for s in &seqs {
+            println!("seq {} {}", p.name, s);
+        }
+        println!("done {} runs={} exhaustive={} preemption_bound={} sequential_orders={}", p.name, runs, exhausted, k, seqs.len());
         return;
     }
     let maxruns: usize = p.arg.parse().unwrap_or(2000);
